@@ -5,6 +5,7 @@ implementation answered?  This is the correspondence check (tie 2).
 -/
 import Sqroot.Driver.ModelRoot
 import Sqroot.Driver.ModelPos
+import Sqroot.Driver.ModelScript
 open Sqroot.Driver Sqroot.Model
 
 def modelLine (l : Line) : String :=
@@ -21,6 +22,7 @@ def modelLine (l : Line) : String :=
     | some num, some den, some k => cmp (modelRatResult num den k) l.rawRes
     | _, _, _ => "FAIL bad args"
   | "pos", [_, script] => cmp (modelPosResult script) l.rawRes
+  | "script", [v, desc, stmts] => modelScriptLine v desc stmts l.rawRes
   | _, _ => "skip"
 
 def main : IO Unit := do
